@@ -45,6 +45,8 @@ EDITS = [
  ("setu64.rs", "insert heap empty-spot word", r"a\[idx\] = key << s\.bits \| 1 << offset;", "a[idx] = key << s.bits | 1 << (offset + 1);"),
  ("setu64.rs", "insert heap found: forgets the count", r"(a\[idx\] = a\[idx\] \| \(1 << offset\);\s*)s\.sz \+= 1;", r"\g<1>"),
  ("setu32.rs", "insert heap room rule", r"n \+ 1 > a\.len\(\) >> 4", "n + 1 > a.len() >> 3"),
+ ("setu64.rs", "insert big: present element reported new", r"LookedUp::KeyFound\(_\) => \{\s*return false;", "LookedUp::KeyFound(_) => {\n                        return true;"),
+ ("setu64.rs", "insert big: stand-in for 0 dropped", r"(pub fn insert[\s\S]*?)let e = if e == 0 \{ s\.bits \} else \{ e \};", r"\g<1>let e = if e == 0 { e } else { e };"),
  ("setu64.rs", "BITSPLITS row", r"&\[25, 12, 12, 12\]", "&[26, 12, 12, 12]"),
  ("setu32.rs", "log_2 width", r"(fn log_2\(x: u32\)[\s\S]*?)num_bits::<u32>\(\) as u32 - x\.leading_zeros\(\)", r"\g<1>num_bits::<u32>() as u32 + 1 - x.leading_zeros()"),
  ("setu32.rs", "compute_array_bits large threshold", r"else if log_2\(mx\) > 62 \{", "else if log_2(mx) > 31 {"),
